@@ -27,6 +27,14 @@ type passRef struct {
 	window, probation, protected []int
 	maximum, windowMax           uint64
 	size, windowSize             uint64
+	w                            map[int]uint64 // weights (nil: every entry weighs 1)
+}
+
+func (s *passRef) weight(k int) uint64 {
+	if s.w == nil {
+		return 1
+	}
+	return s.w[k]
 }
 
 func without(q []int, k int) []int {
@@ -68,14 +76,18 @@ func (s *passRef) follow(evicted []int, freq func(int) uint64, word uint32) (vio
 	}
 	// evictFromWindow
 	first := none
-	for s.windowSize > s.windowMax && len(s.window) > 0 {
-		n := s.window[0]
-		s.window = s.window[1:]
+	for i := 0; s.windowSize > s.windowMax && i < len(s.window); {
+		n := s.window[i]
+		if s.weight(n) == 0 {
+			i++ // entries of weight zero stay where they are
+			continue
+		}
+		s.window = append(append([]int(nil), s.window[:i]...), s.window[i+1:]...)
 		s.probation = append(s.probation, n)
 		if first == none {
 			first = n
 		}
-		s.windowSize--
+		s.windowSize -= s.weight(n)
 	}
 	// evictFromMain
 	const (
@@ -111,10 +123,10 @@ func (s *passRef) follow(evicted []int, freq func(int) uint64, word uint32) (vio
 			}
 		}
 		if inWindow {
-			s.windowSize--
+			s.windowSize -= s.weight(k)
 		}
 		s.window, s.probation, s.protected = without(s.window, k), without(s.probation, k), without(s.protected, k)
-		s.size--
+		s.size -= s.weight(k)
 	}
 	for s.size > s.maximum {
 		if candidate == none && candidateQueue == qProbation {
@@ -142,12 +154,33 @@ func (s *passRef) follow(evicted []int, freq func(int) uint64, word uint32) (vio
 			}
 			break
 		}
+		// entries of weight zero are skipped, never evicted for size
+		if victim != none && s.weight(victim) == 0 {
+			victim = next(victimQueue, victim)
+			continue
+		} else if candidate != none && s.weight(candidate) == 0 {
+			candidate = next(candidateQueue, candidate)
+			continue
+		}
 		x, ok := take()
 		if !ok {
 			st.diverged = true // the real pass stopped while the documented one still evicts
 			return "", st
 		}
 		switch {
+		case victim != none && candidate != none && candidate != victim && s.weight(candidate) > s.maximum:
+			// a candidate that alone exceeds the maximum leaves at once
+			if x != candidate {
+				st.diverged = true
+				return "", st
+			}
+			st.forced++
+			nc := next(candidateQueue, candidate)
+			if victim == candidate {
+				victim = next(victimQueue, victim)
+			}
+			remove(candidate)
+			candidate = nc
 		case victim == none:
 			if x != candidate {
 				st.diverged = true
@@ -217,9 +250,55 @@ func (s *passRef) follow(evicted []int, freq func(int) uint64, word uint32) (vio
 
 // runPolicyPasses drives one policy and follows every eviction pass.
 func runPolicyPasses(seed uint64) (violation string, total passStats, passes, multi int64) {
+	var recordViolation string
 	r := core.NewRng(seed)
 	maximum := uint64(8 + r.Intn(600))
+	weighted := r.Chance(1, 3)
 	p := otter.VerifNewPolicyWithMaximum(maximum)
+	if weighted {
+		maximum = uint64(20 + r.Intn(2000))
+		p = otter.VerifNewWeightedPolicy(maximum)
+	}
+	weightFor := func() uint32 {
+		if !weighted {
+			return 1
+		}
+		switch x := r.Intn(40); {
+		case x < 4:
+			return 0
+		case x < 5:
+			return uint32(maximum) + 1 + uint32(r.Intn(5)) // alone exceeds the maximum
+		case x < 8:
+			return uint32(1 + r.Intn(int(maximum/4)+1))
+		}
+		return uint32(1 + r.Intn(6))
+	}
+	insert := func(k int) {
+		w := weightFor()
+		// sometimes the entry is read before its insertion is applied (reads are drained first): every
+		// recording counts, whether or not the policy already links the entry
+		touches := 0
+		if r.Chance(1, 6) {
+			touches = 1 + r.Intn(12)
+		}
+		size, sample := p.SketchCounters()
+		enabled := p.SketchEnabled()
+		for t := 0; t < touches; t++ {
+			p.TouchUnapplied(k, w)
+		}
+		if weighted {
+			p.InsertWeighted(k, w)
+		} else {
+			p.Insert(k)
+		}
+		_, sampleAfter := p.SketchCounters()
+		// (an insertion may grow the sketch, which starts a new period: then nothing is owed)
+		if touches > 0 && enabled && sampleAfter == sample && size+uint64(touches)+1 < sample {
+			if f := p.Frequency(k); f < uint64(min(touches+1, 15)) {
+				recordViolation = fmt.Sprintf("key %d was read %d times before its insertion was applied and then inserted: %d recordings within one sampling period (%d of %d recordings so far), but its estimate is %d", k, touches, touches+1, size, sample, f)
+			}
+		}
+	}
 	resident := map[int]bool{}
 	var keys []int
 	nextKey := 1
@@ -228,8 +307,28 @@ func runPolicyPasses(seed uint64) (violation string, total passStats, passes, mu
 		w, pb, pt := p.Queues()
 		mx, wmx, sz, wsz := p.Limits()
 		ref := &passRef{window: w, probation: pb, protected: pt, maximum: mx, windowMax: wmx, size: sz, windowSize: wsz}
-		if uint64(len(w)+len(pb)+len(pt)) != sz || uint64(len(w)) != wsz {
+		if weighted {
+			ref.w = map[int]uint64{}
+			for _, q := range [][]int{w, pb, pt} {
+				for _, k := range q {
+					ref.w[k] = uint64(p.WeightOf(k))
+				}
+			}
+		}
+		var sumAll, sumWin uint64
+		for _, q := range [][]int{w, pb, pt} {
+			for _, k := range q {
+				sumAll += ref.weight(k)
+			}
+		}
+		for _, k := range w {
+			sumWin += ref.weight(k)
+		}
+		if sumAll != sz || sumWin != wsz {
 			return "" // sizes and queues disagree (not this check's business): nothing to follow
+		}
+		if recordViolation != "" {
+			return recordViolation
 		}
 		freqs := map[int]uint64{}
 		for _, q := range [][]int{w, pb, pt} {
@@ -262,8 +361,9 @@ func runPolicyPasses(seed uint64) (violation string, total passStats, passes, mu
 	}
 	rebuild := func() {
 		keys = keys[:0]
-		for k := range resident {
-			keys = append(keys, k)
+		w, pb, pt := p.Queues()
+		for _, q := range [][]int{w, pb, pt} {
+			keys = append(keys, q...)
 		}
 	}
 	steps := 300 + r.Intn(1500)
@@ -272,7 +372,7 @@ func runPolicyPasses(seed uint64) (violation string, total passStats, passes, mu
 		case x < 9 || len(resident) == 0: // one insertion, one pass (the common case)
 			k := nextKey
 			nextKey++
-			p.Insert(k)
+			insert(k)
 			resident[k] = true
 			if v := pass(); v != "" {
 				return v, total, passes, multi
@@ -302,7 +402,7 @@ func runPolicyPasses(seed uint64) (violation string, total passStats, passes, mu
 			for j := 0; j < n; j++ {
 				k := nextKey
 				nextKey++
-				p.Insert(k)
+				insert(k)
 				resident[k] = true
 				if r.Chance(1, 3) {
 					for t := 0; t < 2+r.Intn(10); t++ {
